@@ -124,7 +124,22 @@ Definition resolve (lm : option linkmerge) (pv : option pick) (d : option value)
   end.
 
 (* ---------------------------------------------------------------- the tool library *)
-Inductive tool := TAdd | TCat | TShow | TRange | TSum | TLen | TMaybe | TPair | TId | TMkRec | TGetX | TTwo | TPos.
+Inductive tool := TAdd | TCat | TShow | TRange | TSum | TLen | TMaybe | TPair | TId | TMkRec | TGetX | TTwo | TPos
+  (* File values: a File is the record {basename, class = "File", contents} (locations, size and checksum are derived
+     and checked by the harness).  TMkFile is an ExpressionTool returning a file literal; TCCat (cat f > name),
+     TCCp (cp f name) and TCWc (wc -c < f) are CommandLineTools; TFContents is an ExpressionTool with loadContents *)
+  | TMkFile (name : string) | TCCat (name : string) | TCCp (name : string) | TCWc | TFContents.
+
+Definition mk_file (name contents : string) : value :=
+  VRec [("basename", VStr name); ("class", VStr "File"); ("contents", VStr contents)].
+Definition file_contents (v : value) : option string :=
+  match v with
+  | VRec r => match lookup "class" r, lookup "contents" r with
+              | Some (VStr "File"), Some (VStr c) => Some c
+              | _, _ => None
+              end
+  | _ => None
+  end.
 
 Definition show_Z (z : Z) : string :=
   match z with
@@ -177,11 +192,27 @@ Definition run_tool (t : tool) (i : obj) : option obj :=
   | TPos => match a with
             | Some (VInt x) => if (x <? 0)%Z then None else Some [("o", VInt x)]
             | _ => None end
+  | TMkFile n => match b with Some (VStr c) => Some [("o", mk_file n c)] | _ => None end
+  | TCCat n => match a with
+               | Some f => match file_contents f with Some c => Some [("o", mk_file n c)] | None => None end
+               | None => None end
+  | TCCp n => match a with
+              | Some f => match file_contents f with Some c => Some [("o", mk_file n c)] | None => None end
+              | None => None end
+  | TCWc => match a with
+            | Some f => match file_contents f with
+                        | Some c => Some [("o", VInt (Z.of_nat (String.length c)))]
+                        | None => None end
+            | None => None end
+  | TFContents => match a with
+                  | Some f => match file_contents f with Some c => Some [("o", VStr c)] | None => None end
+                  | None => None end
   end.
 
 (* ---------------------------------------------------------------- programs *)
 Inductive vfrom := VFSelf | VFSelfPlus (k : Z) | VFInput (n : string) | VFConst (v : value).
-Inductive cond := CGt (n : string) (k : Z) | CBool (n : string) | CNonNull (n : string) | CRaw (n : string).
+Inductive cond := CGt (n : string) (k : Z) | CBool (n : string) | CNonNull (n : string) | CRaw (n : string)
+  | CLt (n : string) (k : Z).        (* inputs.n < k : the loopWhen form *)
 Inductive smethod := Dot | NestedCross | FlatCross.
 
 Record link := {
@@ -195,6 +226,10 @@ Record link := {
 Inductive wf := Wf (inputs : list (string * option value)) (steps : list step) (outputs : list link)
 with step := Step (id : string) (run : runk) (ins : list link) (scatter : list string) (m : smethod)
                   (when : option cond) (outs : list string)
+  (* cwltool:Loop (StreamFlow: tests/test_cwl_loop.py): while loopWhen holds on the current inputs run the process,
+     then feed input k with output o for every (k, o) of [loop]; outputMethod last (null when no iteration) / all *)
+  | LStep (id : string) (run : runk) (ins : list link) (loop : list (string * string)) (lw : cond) (all : bool)
+          (outs : list string)
 with runk := RTool (t : tool) | RWf (w : wf).
 
 (* ---------------------------------------------------------------- evaluation *)
@@ -237,6 +272,11 @@ Definition eval_cond (inputs : obj) (c : cond) : option bool :=
   | CGt n k => match lookup n inputs with
                | Some (VInt z) => Some (k <? z)%Z
                | Some VNull => Some (k <? 0)%Z      (* JavaScript: null > k *)
+               | _ => None
+               end
+  | CLt n k => match lookup n inputs with
+               | Some (VInt z) => Some (z <? k)%Z
+               | Some VNull => Some (0 <? k)%Z      (* JavaScript: null < k *)
                | _ => None
                end
   | CBool n | CRaw n => match lookup n inputs with Some (VBool b) => Some b | _ => None end
@@ -349,8 +389,45 @@ Section Step.
         end
     end.
 
+  (* at most [fuel] iterations (the generator keeps loops within 12; running out of fuel is a failure) *)
+  Fixpoint loop_iter (fuel : nat) (r : runk) (lp : list (string * string)) (lw : cond) (i : obj) (acc : list obj)
+    : option (list obj) :=
+    match fuel with
+    | O => None
+    | S f =>
+        match eval_cond i lw with
+        | None => None
+        | Some false => Some (rev acc)
+        | Some true =>
+            match run_process r i with
+            | None => None
+            | Some o =>
+                let i' := fold_left (fun acc' (ko : string * string) =>
+                                       set_key (fst ko) (match lookup (snd ko) o with Some v => v | None => VNull end) acc')
+                                    lp i in
+                loop_iter f r lp lw i' (o :: acc)
+            end
+        end
+    end.
+
   Definition eval_step (env : obj) (s : step) : option obj :=
     match s with
+    | LStep id r ins lp lw all outs =>
+        match resolve_links env ins with
+        | None => None
+        | Some i =>
+            match loop_iter 64 r lp lw i [] with
+            | None => None
+            | Some its =>
+                Some (map (fun o =>
+                             (o, if all
+                                 then VArr (map (fun r' => match lookup o r' with Some v => v | None => VNull end) its)
+                                 else match last its [] with
+                                      | [] => VNull
+                                      | r' => match lookup o r' with Some v => v | None => VNull end
+                                      end)) outs)
+            end
+        end
     | Step id r ins scatter m when outs =>
         match resolve_links env ins with
         | None => None
@@ -390,7 +467,7 @@ Section Step.
         match eval_step env s with
         | None => None
         | Some r =>
-            let sid := match s with Step id _ _ _ _ _ _ => id end in
+            let sid := match s with Step id _ _ _ _ _ _ => id | LStep id _ _ _ _ _ _ => id end in
             eval_steps (env ++ map (fun kv : string * value => (String.append sid (String.append "/" (fst kv)), snd kv)) r) ss'
         end
     end.
